@@ -12,20 +12,25 @@ place_demo() {
     cp $D/demo.rs crates/axmos-db/src/io/tests/demo_$UNDER.rs
     grep -q "demo_$UNDER" crates/axmos-db/src/io/tests/mod.rs || echo "#[cfg(not(miri))] mod demo_$UNDER;" >> crates/axmos-db/src/io/tests/mod.rs
     DEMO_CMD="cargo test --offline -p axmosdb --lib demo_$UNDER"
+  elif echo "$LOC" | grep -q "src/tree/tests"; then
+    cp $D/demo.rs crates/axmos-db/src/tree/tests/demo_$UNDER.rs
+    grep -q "demo_$UNDER" crates/axmos-db/src/tree/tests/mod.rs || echo "mod demo_$UNDER;" >> crates/axmos-db/src/tree/tests/mod.rs
+    DEMO_CMD="cargo test --offline -p axmosdb --lib demo_$UNDER"
   elif echo "$LOC" | grep -q "/tests/"; then
     mkdir -p crates/axmos-db/tests; cp $D/demo.rs crates/axmos-db/tests/demo_$UNDER.rs
     DEMO_CMD="cargo test --offline -p axmosdb --test demo_$UNDER"
+    grep -q 'feature = "verif"' $D/demo.rs && DEMO_CMD="cargo test --offline -p axmosdb --features verif --test demo_$UNDER"
   else
     echo "unknown demo location: $LOC"; exit 2
   fi
 }
-clean_demo() { rm -f crates/axmos-db/tests/demo_$UNDER.rs crates/axmos-db/src/io/tests/demo_$UNDER.rs; git checkout -q -- crates/axmos-db/src/io/tests/mod.rs 2>/dev/null; rmdir crates/axmos-db/tests 2>/dev/null; }
+clean_demo() { rm -f crates/axmos-db/tests/demo_$UNDER.rs crates/axmos-db/src/io/tests/demo_$UNDER.rs crates/axmos-db/src/tree/tests/demo_$UNDER.rs; git checkout -q -- crates/axmos-db/src/io/tests/mod.rs crates/axmos-db/src/tree/tests/mod.rs 2>/dev/null; rmdir crates/axmos-db/tests 2>/dev/null; }
 place_demo
-$DEMO_CMD > /tmp/confirm_$NAME.without.log 2>&1; W=$?
+$DEMO_CMD > /tmp/confirm_$(basename $WT)_$NAME.without.log 2>&1; W=$?
 git apply $D/patch.diff || { echo "$NAME: patch does not apply"; clean_demo; exit 2; }
-$DEMO_CMD > /tmp/confirm_$NAME.with.log 2>&1; X=$?
+$DEMO_CMD > /tmp/confirm_$(basename $WT)_$NAME.with.log 2>&1; X=$?
 clean_demo
-cargo nextest run --offline -p axmosdb --no-fail-fast > /tmp/confirm_$NAME.suite.log 2>&1; S=$?
-FAILS=$(grep -E "^\s+FAIL " /tmp/confirm_$NAME.suite.log | sort -u | wc -l)
+cargo nextest run --offline -p axmosdb --no-fail-fast -j3 > /tmp/confirm_$(basename $WT)_$NAME.suite.log 2>&1; S=$?
+FAILS=$(grep -E "^\s+FAIL " /tmp/confirm_$(basename $WT)_$NAME.suite.log | sort -u | wc -l)
 git checkout -q -- .
 echo "$NAME: demo_without_patch_exit=$W demo_with_patch_exit=$X suite_exit=$S suite_failures=$FAILS"
